@@ -2,6 +2,7 @@ package main
 
 import (
 	"fmt"
+	"strings"
 	"go/types"
 	"sort"
 
@@ -30,7 +31,15 @@ func (e *Event) String() string {
 	case "close":
 		return fmt.Sprintf("close %s", e.Chan)
 	case "call", "go", "defer":
-		return fmt.Sprintf("%s %s/%d", e.Kind, e.Fn, len(e.Args))
+		var as []string
+		for _, a := range e.Args {
+			if a.T != nil {
+				as = append(as, a.T.String())
+			} else {
+				as = append(as, "<composite>")
+			}
+		}
+		return fmt.Sprintf("%s %s(%s)", e.Kind, e.Fn, strings.Join(as, ", "))
 	}
 	return e.Kind
 }
